@@ -1,1 +1,250 @@
 // verification harness (compiled into ntpd/src/daemon/spawn/pool.rs under cfg(all(test, pendulum_project_ntpd_rs_verif)))
+//
+// Harness for spec/Spawner.tla, part Pool (C35): drives the real `PoolSpawner` with the abstract actions
+//   {"t":"TrySpawn","fail":bool,"ans":[addr..]}   try_spawn with the next DNS lookup scripted to answer `ans` / to fail
+//   {"t":"Removed","id":n,"reason":".."}          handle_source_removed for the source the model calls n
+// and observes the SpawnEvent stream, is_complete() and the private bookkeeping (current_sources, known_ips).
+//   * mode "replay": compares with the specification's expectation after every step of TLC-generated walks;
+//   * mode "record": seeded random sessions logged as ndjson for Trace_SpawnerPool.
+// Model address k is 10.0.0.k:123; model source ids are the smallest number not in use (table kept here).
+#![allow(clippy::all, dead_code)]
+
+use super::*;
+use crate::daemon::config::NormalizedAddress;
+use crate::daemon::spawn::{SourceCreateParameters, SourceRemovalReason};
+use ntp_proto::ProtocolVersion;
+use serde_json::{Value, json};
+use std::net::{IpAddr, Ipv4Addr};
+
+#[path = "/verif/harness/common/util.rs"]
+mod util;
+use util::Rng;
+
+fn sock(k: i64) -> SocketAddr {
+    SocketAddr::new(IpAddr::V4(Ipv4Addr::new(10, 0, 0, k as u8)), 123)
+}
+
+fn model_addr(a: &SocketAddr) -> i64 {
+    match a.ip() {
+        IpAddr::V4(v4) if v4.octets()[..3] == [10, 0, 0] && a.port() == 123 => v4.octets()[3] as i64,
+        _ => -1,
+    }
+}
+
+struct Sut {
+    pool: PoolSpawner,
+    tx: mpsc::Sender<SpawnEvent>,
+    rx: mpsc::Receiver<SpawnEvent>,
+    table: Vec<(ClockId, i64)>, // real id -> model id of the sources the spawner created and still lists
+    rt: tokio::runtime::Runtime,
+}
+
+impl Sut {
+    fn new(cfg: &Value) -> Sut {
+        let count = cfg["Count"].as_u64().unwrap() as usize;
+        let ignore: Vec<IpAddr> = cfg["Ignore"].as_array().unwrap().iter().map(|k| sock(k.as_i64().unwrap()).ip()).collect();
+        let pool = PoolSpawner::new(
+            PoolSourceConfig {
+                addr: NormalizedAddress::with_hardcoded_dns("pool.verif.test", 123, vec![]).into(),
+                count,
+                ignore,
+                ntp_version: ProtocolVersion::V4,
+            },
+            SourceConfig::default(),
+        );
+        let (tx, rx) = mpsc::channel(64);
+        let rt = tokio::runtime::Builder::new_current_thread().enable_all().build().unwrap();
+        Sut { pool, tx, rx, table: vec![], rt }
+    }
+
+    fn model_id(&self, id: ClockId) -> i64 {
+        self.table.iter().find(|(r, _)| *r == id).map(|(_, m)| *m).unwrap_or(-1)
+    }
+
+    fn state(&self) -> Value {
+        let active: Vec<Value> = self
+            .pool
+            .current_sources
+            .iter()
+            .map(|p| json!({"id": self.model_id(p.id), "addr": model_addr(&p.addr)}))
+            .collect();
+        let known: Vec<i64> = self.pool.known_ips.iter().map(model_addr).collect();
+        json!({"active": active, "known": known})
+    }
+
+    /// Applies one abstract action; returns (state projection, output, panic message).
+    fn apply(&mut self, act: &Value) -> (Value, Value, Option<String>) {
+        let mut creates: Vec<Value> = vec![];
+        let mut panic = None;
+        match act["t"].as_str().unwrap() {
+            "TrySpawn" => {
+                let answer = if act["fail"].as_bool().unwrap() {
+                    None
+                } else {
+                    Some(act["ans"].as_array().unwrap().iter().map(|k| sock(k.as_i64().unwrap())).collect())
+                };
+                self.pool.config.addr.0.verif_script_dns(answer);
+                let (pool, tx, rt) = (&mut self.pool, &self.tx, &self.rt);
+                match util::catch(|| rt.block_on(pool.try_spawn(tx))) {
+                    Ok(Ok(())) => {}
+                    Ok(Err(e)) => panic = Some(format!("try_spawn returned an error: {e:?}")),
+                    Err(p) => panic = Some(p),
+                }
+                while let Ok(ev) = self.rx.try_recv() {
+                    let spawner_ok = ev.id == self.pool.get_id();
+                    let SpawnAction::Create(params) = ev.action;
+                    match params {
+                        SourceCreateParameters::Ntp(p) => {
+                            // name the new source as the model does: smallest number not in use
+                            let mut m = 0;
+                            while self.table.iter().any(|(_, x)| *x == m) {
+                                m += 1;
+                            }
+                            self.table.push((p.id, m));
+                            if spawner_ok && p.nts.is_none() {
+                                creates.push(json!({"id": m, "addr": model_addr(&p.addr)}));
+                            } else {
+                                creates.push(json!({"id": m, "addr": model_addr(&p.addr), "bad_event": true}));
+                            }
+                        }
+                        _ => creates.push(json!({"id": -1, "addr": -1, "bad_event": true})),
+                    }
+                }
+            }
+            "Removed" => {
+                let m = act["id"].as_i64().unwrap();
+                let real = self.table.iter().find(|(_, x)| *x == m).map(|(r, _)| *r).unwrap_or_else(ClockId::new);
+                let reason = match act["reason"].as_str().unwrap() {
+                    "Demobilized" => SourceRemovalReason::Demobilized,
+                    "NetworkIssue" => SourceRemovalReason::NetworkIssue,
+                    _ => SourceRemovalReason::Unreachable,
+                };
+                let (pool, rt) = (&mut self.pool, &self.rt);
+                match util::catch(|| rt.block_on(pool.handle_source_removed(SourceRemovedEvent { id: real, reason }))) {
+                    Ok(Ok(())) => {}
+                    Ok(Err(e)) => panic = Some(format!("handle_source_removed returned an error: {e:?}")),
+                    Err(p) => panic = Some(p),
+                }
+                // the system has removed the source: forget its name once the spawner no longer lists it
+                let listed: Vec<ClockId> = self.pool.current_sources.iter().map(|p| p.id).collect();
+                self.table.retain(|(r, x)| *x != m || listed.contains(r));
+                if self.rx.try_recv().is_ok() {
+                    creates.push(json!({"id": -1, "addr": -1, "bad_event": true}));
+                }
+            }
+            t => panic!("unknown action {t}"),
+        }
+        let out = json!({"creates": creates, "complete": self.pool.is_complete()});
+        (self.state(), out, panic)
+    }
+}
+
+fn compare(exp_post: &Value, exp_out: &Value, st: &Value, out: &Value, panic: &Option<String>) -> Vec<String> {
+    let mut d = vec![];
+    if panic.is_some() {
+        d.push("panic".to_string());
+        return d;
+    }
+    for k in ["active", "known"] {
+        if exp_post[k] != st[k] {
+            d.push(k.to_string());
+        }
+    }
+    for k in ["creates", "complete"] {
+        if exp_out[k] != out[k] {
+            d.push(format!("out.{k}"));
+        }
+    }
+    d
+}
+
+fn replay(job: &Value) {
+    let walks = util::read_ndjson(job["input"].as_str().unwrap());
+    let mut out = util::NdjsonOut::create(job["output"].as_str().unwrap());
+    // "loose": only execute the walk and report the final state (used for TLC's as-coded counterexamples)
+    let loose = job["loose"].as_bool().unwrap_or(false);
+    for w in walks {
+        let mut sut = Sut::new(&job["cfg"]);
+        let steps = w["walk"].as_array().unwrap();
+        let mut fail = Value::Null;
+        let mut run = 0;
+        let mut last = json!({"st": sut.state()});
+        for (n, st) in steps.iter().enumerate() {
+            let (obs_st, obs_out, panic) = sut.apply(&st["act"]);
+            run = n + 1;
+            let mut d = compare(&st["post"], &st["out"], &obs_st, &obs_out, &panic);
+            if loose && panic.is_none() {
+                d.clear();
+            }
+            last = json!({"st": obs_st, "out": obs_out});
+            if !d.is_empty() {
+                fail = json!({"step": n, "fields": d, "observed": last, "panic": panic});
+                break;
+            }
+        }
+        out.put(&json!({"id": w["id"], "steps_run": run, "fail": fail, "final": last}));
+    }
+    out.finish();
+}
+
+fn record(job: &Value) {
+    let mut out = util::NdjsonOut::create(job["output"].as_str().unwrap());
+    let seed = job["seed"].as_u64().unwrap_or(0);
+    let sessions = job["sessions"].as_u64().unwrap_or(10);
+    let steps = job["steps"].as_u64().unwrap_or(100);
+    let cfg = &job["cfg"];
+    let naddr = cfg["NAddr"].as_u64().unwrap();
+    let max_ans = cfg["MaxAns"].as_u64().unwrap();
+    let mut rng = Rng::new(seed ^ 0x9001);
+    for _ in 0..sessions {
+        let mut sut = Sut::new(cfg);
+        out.put(&json!({"ev": "reset", "st": sut.state()}));
+        // per session: how often DNS answers repeat an address within one answer
+        let dup_free = rng.chance(1, 2);
+        for _ in 0..steps {
+            let r = rng.below(100);
+            let act = if r < 45 {
+                if rng.chance(1, 10) {
+                    json!({"t": "TrySpawn", "fail": true, "ans": []})
+                } else {
+                    let n = rng.below(max_ans + 1);
+                    let mut ans: Vec<i64> = vec![];
+                    for _ in 0..n {
+                        let a = 1 + rng.below(naddr) as i64;
+                        if dup_free && ans.contains(&a) {
+                            continue;
+                        }
+                        ans.push(a);
+                    }
+                    json!({"t": "TrySpawn", "fail": false, "ans": ans})
+                }
+            } else {
+                let active = sut.pool.current_sources.len() as u64;
+                let id = if active == 0 || rng.chance(1, 8) {
+                    99
+                } else {
+                    let p = &sut.pool.current_sources[rng.below(active) as usize];
+                    sut.model_id(p.id)
+                };
+                let reason = *rng.pick(&["Demobilized", "NetworkIssue", "Unreachable"]);
+                json!({"t": "Removed", "id": id, "reason": reason})
+            };
+            let (st, o, panic) = sut.apply(&act);
+            out.put(&json!({"ev": "step", "act": act, "st": st, "out": o, "panic": panic.clone().unwrap_or_default()}));
+            if panic.is_some() {
+                break;
+            }
+        }
+    }
+    out.finish();
+}
+
+#[test]
+fn verif_pool() {
+    let job = util::job();
+    match job["mode"].as_str().unwrap() {
+        "replay" => replay(&job),
+        "record" => record(&job),
+        m => panic!("unknown mode {m}"),
+    }
+}
